@@ -104,12 +104,35 @@ class SharedModel:
                     fo = tgt['_field']
                     if fo[0] in self.shared_records:
                         self.writers[(fo[0], fo[1])].append((f, n.get('_line')))
+        # static helpers that are called from constructors only (`alloc_slots()` that also records the range) write on the
+        # constructor's behalf: the object is not shared yet
+        callers = collections.defaultdict(set)
+        for f in prog.funcs.values():
+            for n in walk(f.body):
+                if n.get('kind') == 'CallExpr':
+                    nm = prog.callee_name(n)
+                    if nm:
+                        callers[nm].add(f.name)
+        self.ctor_only = {}
+        for r in self.lockables:
+            co = set(self.constructors[r])
+            changed = True
+            while changed:
+                changed = False
+                for f in prog.funcs.values():
+                    if f.name in co or not f.static or f.body is None:
+                        continue
+                    cs = callers.get(f.name, set())
+                    if cs and cs <= co:
+                        co.add(f.name)
+                        changed = True
+            self.ctor_only[r] = co
         self.immutable = set()
         for (r, fn), ty in self.fields.items():
             if r not in self.lockables:
                 continue
             ws = self.writers.get((r, fn), [])
-            if all(w[0].name in self.constructors[r] for w in ws):
+            if all(w[0].name in self.ctor_only[r] for w in ws):
                 self.immutable.add((r, fn))
         self.fresh_fns = self._fresh_functions()
 
